@@ -10,6 +10,11 @@ MCInputSets == LET R == Raw IN [i \in DOMAIN R |-> { R[i].inputs[j] : j \in DOMA
 CONSTANT Grid
 ClockGrid == now \in Grid
 
+(* models with a backward `next` jump run for ever: at most MaxInst instances  *)
+(* of a node are explored                                                      *)
+CONSTANT MaxInst
+InstBound == \A pid \in Pids : procs[pid].st # "absent" => \A t \in DOMAIN procs[pid].ts : t[2] <= MaxInst
+
 (* Observation variables are not part of the explored state, and creation     *)
 (* stamps matter only as the order among the tasks that hang off one          *)
 (* predecessor (Process::children sorts by them): states that differ in the   *)
